@@ -87,21 +87,64 @@ def expected_codes(index):
 
 
 def parse_bounds(index):
-    """assert country_data["k"] OP literal  ->  [(k, op, value)]"""
+    """assert country_data["k"] OP literal  ->  [(k, op, value)], also when the assertion sits in a loop over a literal list of names
+    (unrolled) and reads the cell through a local (`x = country_data[f"..._{name}"]; assert x < 1`) or a chained comparison"""
+    from .c13 import str_eval
     fn = index.func(RMNT, "ScenarioRunnerNoTrade.verify_country_data")
     out = []
-    for st in fn.body:
-        if isinstance(st, ast.Assert) and isinstance(st.test, ast.Compare) and len(st.test.ops) == 1:
-            l, r = st.test.left, st.test.comparators[0]
-            if isinstance(l, ast.Subscript) and norm_src(l.value) == "country_data" and str_const(l.slice) and \
-                    isinstance(r, (ast.Constant, ast.UnaryOp)):
+    OPS = {ast.Lt: "<", ast.LtE: "<=", ast.Gt: ">", ast.GtE: ">="}
+    FLIP = {"<": ">", "<=": ">=", ">": "<", ">=": "<="}
+
+    def key_of(e, var, value, locals_):
+        if isinstance(e, ast.Name) and e.id in locals_:
+            e = locals_[e.id]
+        if isinstance(e, ast.Subscript) and norm_src(e.value) == "country_data":
+            if str_const(e.slice):
+                return str_const(e.slice)
+            if var is not None:
                 try:
-                    val = float(ast.literal_eval(r))
-                except Exception:
-                    continue
-                op = {ast.Lt: "<", ast.LtE: "<=", ast.Gt: ">", ast.GtE: ">="}.get(type(st.test.ops[0]))
-                if op:
-                    out.append((str_const(l.slice), op, val))
+                    k = str_eval(e.slice, var, value)
+                    return k if isinstance(k, str) else None
+                except (AnalysisError, Exception):
+                    return None
+        return None
+
+    def lit(e):
+        if isinstance(e, (ast.Constant, ast.UnaryOp, ast.BinOp)):
+            try:
+                return float(ast.literal_eval(e))
+            except Exception:
+                return None
+        return None
+
+    def scan(stmts, var, value):
+        locals_ = {}
+        for st in stmts:
+            if isinstance(st, ast.Assign) and len(st.targets) == 1 and isinstance(st.targets[0], ast.Name):
+                locals_[st.targets[0].id] = st.value
+            elif isinstance(st, ast.Assert) and isinstance(st.test, (ast.Compare, ast.BoolOp)):
+                tests = st.test.values if isinstance(st.test, ast.BoolOp) and isinstance(st.test.op, ast.And) else [st.test]
+                for t in tests:
+                    if not isinstance(t, ast.Compare):
+                        continue
+                    terms = [t.left] + list(t.comparators)
+                    for l, o, r in zip(terms, t.ops, terms[1:]):
+                        op = OPS.get(type(o))
+                        if not op:
+                            continue
+                        k, v = key_of(l, var, value, locals_), lit(r)
+                        if k is not None and v is not None:
+                            out.append((k, op, v))
+                            continue
+                        k, v = key_of(r, var, value, locals_), lit(l)
+                        if k is not None and v is not None:
+                            out.append((k, FLIP[op], v))
+            elif isinstance(st, ast.For) and var is None and isinstance(st.target, ast.Name) and isinstance(st.iter, (ast.List, ast.Tuple)) \
+                    and all(isinstance(e, ast.Constant) and isinstance(e.value, (str, int)) for e in st.iter.elts):
+                for e in st.iter.elts:
+                    scan(st.body, st.target.id, e.value)
+
+    scan(fn.body, None, None)
     if len(out) < 60:
         raise AnalysisError(f"verify_country_data: only {len(out)} simple bounds recognised")
     return out, fn
